@@ -17,7 +17,9 @@ META = {
              "to the facts extracted from settings.go."),
     "note": ("Trusted: Lean kernel (propext, Classical.choice, Quot.sound); extract/c21.go; harness/c21.go. Scope: pattern parts "
              "without '/' (patterns enter through name.Load); ChroniclerV2 (runtime-only, never set by the gateway) is outside the "
-             "model; Go map iteration is modelled as an arbitrary permutation."),
+             "model; Go map iteration is modelled as an arbitrary permutation. Persistence: fields are carried in whole seconds / bytes "
+             "(Duration = seconds * time.Second overflows beyond ~292 years: not modelled); a save cut short by RLIMIT_FSIZE is exercised on the "
+             "real code; a settings.json corrupted from OUTSIDE still makes New start empty (error only logged) — not reachable by a crash any more."),
     "design_ref": "§8 C21",
 }
 
@@ -26,6 +28,8 @@ FINDINGS = {
                             "resolves to different settings from one lookup to the next (e.g. exact persistent + realm-wildcard in-memory)",
     "C21-reregistration-ignored": "RegisterPattern's `not changed` early return ignores the swamp type: `reg a/x/p M 4` then `reg a/x/p P 4 0 0` "
                                   "leaves the pattern in-memory; lookups keep returning the older registration",
+    "C21-settings-save-not-atomic": "settings.json is rewritten in place: when a save fails part-way (crash, full disk) the file no longer parses and "
+                                    "settings.New silently starts with NO patterns — every previously registered pattern is lost after the restart",
     "C21-restart-loses-field": "a pattern field is not carried through settings.json: after a restart the same name resolves to different settings",
 }
 
@@ -42,13 +46,25 @@ def _more_specific(q, p):
 def oracle(rep):
     """Spec oracle on the implementation's replies only: one result per lookup batch, the winner is a
     most specific registered match (default iff none), the same result after a restart."""
-    keys, last, regd = set(), {}, {}
+    keys, last, regd, torn, maybe_all = set(), {}, {}, None, set()
     for op, line in zip(rep["ops"], rep["impl"]):
         f = op.split(" ")
         if line == "panic":
             return (None, "`%s` panicked" % op)
         if f[0] == "case":
-            keys, last, regd = set(), {}, {}
+            keys, last, regd, torn, maybe_all = set(), {}, {}, None, set()
+        elif f[0] == "regtorn":
+            # the runtime has the pattern; whether it survives a restart is open — everything saved BEFORE must survive
+            keys.add(tuple(f[1:4]))
+            regd[tuple(f[1:4])] = "M|%s|0|0" % f[5] if f[4] == "M" else "P|%s|%s|%s" % (f[5], f[6], f[7])
+            torn = tuple(f[1:4])
+            last = {}
+        elif f[0] == "restart":
+            if torn is not None:
+                keys.discard(torn)
+                regd.pop(torn, None)
+                maybe_all.add(torn)
+                last, torn = {}, None
         elif f[0] == "reg":
             keys.add(tuple(f[1:4]))
             # what the registration asks for (in-memory patterns carry no interval / size)
@@ -63,19 +79,23 @@ def oracle(rep):
             res = line.split(" ")[1:]
             if len({r.split("|", 1)[1] for r in res}) > 1:
                 return ("C21-map-order-lookup", "%d lookups of %s returned different settings: %s" % (300, "/".join(name), " ".join(res)))
+            maybe = {k for k in maybe_all if _matches(name, k)}
+            if maybe and any(tuple(r.split("|")[0].split("/")) in maybe for r in res):
+                continue   # resolved to the pattern whose save was torn: it may or may not have survived
             matching = [k for k in keys if _matches(name, k)]
             for r in res:
                 pat = tuple(r.split("|")[0].split("/"))
                 if not matching:
                     if pat != name or r.split("|", 1)[1] != "P|5|1|65536":
-                        return (None, "no registered pattern matches %s but the result is %s" % ("/".join(name), r))
+                        return ("C21-settings-save-not-atomic" if maybe_all else None, "no registered pattern matches %s but the result is %s" % ("/".join(name), r))
                 elif pat not in matching or any(_more_specific(k, pat) for k in matching):
-                    return ("C21-map-order-lookup", "%s resolved to %s although a more specific registered pattern matches (registered: %s)"
-                            % ("/".join(name), r, " ".join(sorted("/".join(k) for k in matching))))
+                    fidx = "C21-settings-save-not-atomic" if maybe_all else "C21-map-order-lookup"
+                    return (fidx, "%s resolved to %s although a more specific registered pattern matches (registered: %s)"
+                                % ("/".join(name), r, " ".join(sorted("/".join(k) for k in matching))))
             for r in res:
                 pat = tuple(r.split("|")[0].split("/"))
                 if pat in regd and r.split("|", 1)[1] != regd[pat]:
-                    return ("C21-reregistration-ignored", "%s resolved to %s but pattern %s was last registered as %s"
+                    return ("C21-settings-save-not-atomic" if maybe_all else "C21-reregistration-ignored", "%s resolved to %s but pattern %s was last registered as %s"
                             % ("/".join(name), r, "/".join(pat), regd[pat]))
             if name in last and last[name] != res:
                 return ("C21-restart-loses-field", "%s resolved to %s before and %s after a restart" % ("/".join(name), last[name], res))
